@@ -23,14 +23,18 @@ class NoDecomposition(Exception):
     pass
 
 
-def is_leaf(op):
+def is_leaf(op, top=True):
     name = type(op).__name__
     if name in ADJ:
-        return is_leaf(op.base)
+        return is_leaf(op.base, False)
     if name in POW:
-        return float(op.z).is_integer() and is_leaf(op.base)
+        return float(op.z).is_integer() and is_leaf(op.base, False)
     if name in CTRL:
-        return hasattr(op, "base") and is_leaf(op.base)
+        return hasattr(op, "base") and is_leaf(op.base, False)
+    if name in ("Evolution", "Exp"):     # exp(coeff * base) without a gate decomposition: evaluated by leaf_matrix (scipy expm of the
+        return top and not getattr(op, "has_decomposition", False) and hasattr(op, "base") and hasattr(op, "coeff")  # structural base matrix)
+    if name == "PCPhase":      # evaluated by leaf_matrix below (hyper-parameter is called "dim" in this PennyLane version)
+        return top and all(np.ndim(p) == 0 for p in op.data)
     if name in PLAIN or name in G.FIXED or name in G.PARAM:
         return all(np.ndim(p) == 0 for p in op.data) or name in ("QubitUnitary", "DiagonalQubitUnitary")
     return False
@@ -91,9 +95,23 @@ def run_batch(leaves, order, states):
         if name == "GlobalPhase":
             s = s * np.exp(-1j * float(np.asarray(op.data[0])))
             continue
-        M = sim.op_matrix(op)
+        M = leaf_matrix(op)
         s = sim.apply(s, M, [pos[w] for w in op.wires], batch_axes=1)
     return s.reshape(2**n, D)
+
+
+def leaf_matrix(op):
+    if type(op).__name__ == "PCPhase":
+        hyper = getattr(op, "hyperparameters", {}) or {}
+        dim = hyper.get("dim", hyper.get("dimension"))
+        dim = dim[0] if isinstance(dim, (tuple, list)) else dim
+        return G.PCPhase(float(np.asarray(op.data[0])), int(dim), len(op.wires))
+    if type(op).__name__ in ("Evolution", "Exp"):
+        from scipy.linalg import expm
+
+        B = sim.embed(sim.op_matrix(op.base), list(op.base.wires), list(op.wires))
+        return expm(complex(np.asarray(op.coeff)) * B)
+    return sim.op_matrix(op)
 
 
 class guard:
